@@ -65,9 +65,12 @@ PROPS['C27'] = dict(
     ties=[ns_tie(['C27'], quick=3000, name='TIE-C ns'),
           ns_tie(['C27'], quick=1500, thorough=50000, extra=['-profile', 'nilbal'], name='TIE-C ns several balance() variables'),
           dict(name='TIE-C ns adapters (no partial result)', vh='ns', model='ns', n=dict(quick=1500, thorough=50000), args=dict(all=['-c26', '1']), kinds=['C27']),
+          dict(name='TIE-C nslex (portion texts)', vh='nslex', model='nslex', n=dict(quick=8000, thorough=1000000), kinds=['C27']),
           dict(name='EXPLORE nsfront (unmodelled ANTLR front end)', vh='nsfront', model=None, n=dict(quick=6000, thorough=600000), kinds=['C27'])],
     rule=NS_RULE + '; profile nilbal: every program with a balance() variable gets a second one, mostly on the same account; nsfront (exploration of the unmodelled front end, labelled as such): per run 1/3 byte/token-level mutants of generated programs, '
-         '1/3 random token sequences, 1/3 arbitrary byte strings into compiler.Compile and, when they compile, into the machine; only panics and >5 s hangs are reported; the adapters tie also checks that an error never comes with a non-nil result',
+         '1/3 random token sequences, 1/3 arbitrary byte strings into compiler.Compile and, when they compile, into the machine; only panics and >5 s hangs are reported; '
+         'portions: script literals, `portion` variable values and metadata-sourced portions include degenerate texts (1/0, 0/0, 7 / 00, 0/5, 05/010, 1 /2, 3/2, 150%, 0%, 100.0%, .5%, 30-digit terms), read on the model side by Lex.parse_portion; '
+         'nslex also runs machine.ParsePortionSpecific under recover() on portion-like strings over [0-9/ %.] against Lex.parse_portion (a panic is a violation); the adapters tie also checks that an error never comes with a non-nil result',
     trusted=NS_TRUST, level_note=NS_NOTE,
     explanation='Sem.run is a total function with an explicit Panic outcome where Go would dereference a nil *MonetaryInt. C27_no_panic: NO program, variable assignment or store makes it panic (invariant: after ResolveResources/ResolveBalances '
                 'no variable holds a nil amount; then no-Panic by mutual structural induction); C27_no_partial: an error outcome carries no postings (on the Go side the monitor checks result == nil on error for both adapters). '
